@@ -62,6 +62,8 @@ pub struct LModel {
     pub vols: [bool; 4],
     pub dirs: Vec<MDirH>,
     pub files: Vec<MFileH>,
+    /// files created so far: (partition, in SUB, name index)
+    pub created: std::collections::BTreeSet<(u8, bool, u8)>,
 }
 
 pub struct LWorld<const D: usize, const F: usize, const V: usize> {
@@ -301,6 +303,20 @@ impl<const D: usize, const F: usize, const V: usize> LWorld<D, F, V> {
                         let rr = r.as_ref().map(|_| ()).map_err(map_err);
                         expect(&refusals, &rr, "open_file", &mut finds);
                         outcome = format!("{:?}", rr);
+                        // a refused create must not leave an entry behind
+                        if rr.is_err() && !m.created.contains(&(d.part, d.is_sub, n)) {
+                            match catch_quiet(|| vm.find_directory_entry(h, FNAMES[n as usize])) {
+                                Caught::Ok(Err(embedded_sdmmc::Error::NotFound)) => {}
+                                Caught::Ok(other) => finds.push((
+                                    "open_file/refused-create-left-an-entry".into(),
+                                    format!("{:?} was refused with {:?} but the name now resolves to {:?}", op, rr, other.map(|e| e.size).map_err(|e| map_err(&e))),
+                                )),
+                                Caught::Panic(msg) => finds.push(("panic/find_directory_entry".into(), msg)),
+                            }
+                        }
+                        if rr.is_ok() {
+                            self.m.created.insert((d.part, d.is_sub, n));
+                        }
                         if let Ok(fh) = r {
                             if self.files.contains(&fh) {
                                 finds.push(("handle/not-distinct/file".into(), format!("{:?} returned {} which is already open", op, hid(&fh))));
